@@ -3,7 +3,7 @@ import PdeVerif.Model.Conserve
 import PdeVerif.Drv.C02
 namespace PdeVerif.Drv.C05
 open Lean PdeVerif PdeVerif.Stencil PdeVerif.Conserve PdeVerif.BC
-open PdeVerif.Drv.C02 (arrFn parseCond)
+open PdeVerif.Drv.C02 (arrFn parseCond allIdx)
 
 /-- {"cls","shape","lo","dx","op":"laplace"|"divergence","method","conservative","rank","dim",
     "data":[padded array incl. component axis], "faces":[...as c02.ghost...]}
@@ -56,9 +56,67 @@ def integral (j : Json) : Except String Json := do
   | "cyl", "laplace", _ => pure (jQ (intCylLaplace r d0 d1 a n m))
   | "cart", "divergence", 1 => pure (jQ (intCart1Divergence mth d0 a n))
   | "cart", "divergence", 2 => pure (jQ (intCart2Divergence mth d0 d1 a n m))
+  | "cart", "divergence", 3 => pure (jQ (intCart3Divergence mth d0 d1 d2 a n m l))
   | "sph", "divergence", _ => pure (jQ (intSphDivergence cons mth r d0 a n))
   | "polar", "divergence", _ => pure (jQ (intPolarDivergence r d0 a n))
   | _, _, _ => throw s!"integral of {op} not modelled for {cls}/{shape.length}"
 
-def handlers : List (String × Handler) := [("c05.integral", integral)]
+def parseMethod (j : Json) : Except String Method :=
+  match fldOpt j "method" with
+  | some v => do
+    let s ← getS v
+    match s with
+    | "forward" => pure Method.forward
+    | "backward" => pure Method.backward
+    | _ => pure Method.central
+  | none => pure Method.central
+
+/-- The term the zero-sum theorems of `Props/C05b.lean` are about, evaluated:
+{"cls","shape","lo","dx","per":[bool..],"op","method","vector":bool,"dim","data":[padded array],
+ "inner": optional {"normal":bool,"cond":{...}} (condition on the inner face of a radial grid; default: conserving)}
+ -> {"ghost": padded array after `setGhostAll (consFaces | radialFaces ...)`,
+     "integral": `int… (centre lo dr) dr (setGhostAll …) n` without the factor pi} -/
+def cons (j : Json) : Except String Json := do
+  let cls ← fldS j "cls"
+  let shape ← fldNs j "shape"
+  let lo ← fldQs j "lo"
+  let dx ← fldQs j "dx"
+  let per ← (do getL getB (← fld j "per"))
+  let op ← fldS j "op"
+  let vector ← fldB j "vector"
+  let dim ← fldN j "dim"
+  let mth ← parseMethod j
+  let data ← fldQs j "data"
+  let rank := if vector then 1 else 0
+  let fshape := List.replicate rank dim ++ shape.map (· + 2)
+  let a0 : List Int → Rat := arrFn fshape data.toArray
+  let faces ← (match fldOpt j "inner" with
+    | some ij => do
+      let nin ← fldB ij "normal"
+      let cin ← parseCond (← fld ij "cond") (if nin then rank - 1 else rank)
+      pure (radialFaces shape vector dx per cin nin)
+    | none => pure (consFaces shape vector dx per))
+  let a := setGhostAll faces a0
+  let n := shape.getD 0 0
+  let m := shape.getD 1 0
+  let l := shape.getD 2 0
+  let d0 := dx.getD 0 1
+  let d1 := dx.getD 1 1
+  let d2 := dx.getD 2 1
+  let r : Int → Rat := centre (lo.getD 0 0) d0
+  let v ← (match cls, op, shape.length with
+    | "cart", "laplace", 1 => pure (intCart1Laplace d0 a n)
+    | "cart", "laplace", 2 => pure (intCart2Laplace d0 d1 a n m)
+    | "cart", "laplace", 3 => pure (intCart3Laplace d0 d1 d2 a n m l)
+    | "polar", "laplace", _ => pure (intPolarLaplace r d0 a n)
+    | "sph", "laplace", _ => pure (intSphLaplace true r d0 a n)
+    | "cyl", "laplace", _ => pure (intCylLaplace r d0 d1 a n m)
+    | "cart", "divergence", 1 => pure (intCart1Divergence mth d0 a n)
+    | "cart", "divergence", 2 => pure (intCart2Divergence mth d0 d1 a n m)
+    | "cart", "divergence", 3 => pure (intCart3Divergence mth d0 d1 d2 a n m l)
+    | "sph", "divergence", _ => pure (intSphDivergence true mth r d0 a n)
+    | _, _, _ => throw s!"no zero-sum theorem for {op} on {cls}/{shape.length}")
+  pure (Json.mkObj [("ghost", jQs ((allIdx fshape).map a)), ("integral", jQ v)])
+
+def handlers : List (String × Handler) := [("c05.integral", integral), ("c05.cons", cons)]
 end PdeVerif.Drv.C05
